@@ -208,21 +208,28 @@ Conjuncts(e) == IF e.k = "bin" /\ e.op \in AndOps THEN Conjuncts(e.a[1]) \o Conj
 
 \* canonical pinning shapes: key on the left, literal(s) on the right
 IsKeyLit(e) == e.k = "bin" /\ e.a[1].k = "key" /\ e.a[2].k = "str"
+IsLitKey(e) == e.k = "bin" /\ e.a[1].k = "str" /\ e.a[2].k = "key"
+NoPin == [tp |-> "NONE", ks |-> <<>>, lo |-> NIL, hi |-> NIL]
+NoRead == [tp |-> "NOREAD", ks |-> <<>>, lo |-> NIL, hi |-> NIL]
+Points(ks) == [tp |-> "POINTS", ks |-> ks, lo |-> NIL, hi |-> NIL]
+FromPin(lit) == IF lit = <<>> THEN NoPin ELSE [tp |-> "RANGE", ks |-> <<>>, lo |-> lit, hi |-> NIL]
+UpToPin(lit, incl) == IF lit = <<>> THEN (IF incl THEN Points(<<lit>>) ELSE NoRead)
+                      ELSE [tp |-> "RANGE", ks |-> <<>>, lo |-> NIL, hi |-> lit]
 PinOf(e) ==       \* an envelope record, or tp = "NONE" when the conjunct pins nothing
-  IF e.k = "bool" /\ e.n = 0 THEN [tp |-> "NOREAD", ks |-> <<>>, lo |-> NIL, hi |-> NIL]
-  ELSE IF e.k # "bin" THEN [tp |-> "NONE", ks |-> <<>>, lo |-> NIL, hi |-> NIL]
-  ELSE IF e.op = "=" /\ IsKeyLit(e) THEN [tp |-> "POINTS", ks |-> <<e.a[2].s>>, lo |-> NIL, hi |-> NIL]
+  IF e.k = "bool" /\ e.n = 0 THEN NoRead
+  ELSE IF e.k # "bin" THEN NoPin
+  ELSE IF e.op = "=" /\ IsKeyLit(e) THEN Points(<<e.a[2].s>>)
+  ELSE IF e.op = "=" /\ IsLitKey(e) THEN Points(<<e.a[1].s>>)
   ELSE IF e.op = "in" /\ e.a[1].k = "key" /\ e.a[2].k = "list" /\ Len(e.a[2].a) > 0 /\ AllStr(e.a[2].a)
-       THEN [tp |-> "POINTS", ks |-> [i \in 1..Len(e.a[2].a) |-> e.a[2].a[i].s], lo |-> NIL, hi |-> NIL]
+       THEN Points([i \in 1..Len(e.a[2].a) |-> e.a[2].a[i].s])
   ELSE IF e.op = "^=" /\ IsKeyLit(e) THEN [tp |-> "PREFIX", ks |-> <<>>, lo |-> e.a[2].s, hi |-> NIL]
-  ELSE IF e.op \in {">", ">="} /\ IsKeyLit(e) /\ e.a[2].s # <<>> THEN [tp |-> "RANGE", ks |-> <<>>, lo |-> e.a[2].s, hi |-> NIL]
-  ELSE IF e.op \in {"<", "<="} /\ IsKeyLit(e) THEN
-       (IF e.a[2].s = <<>> THEN (IF e.op = "<" THEN [tp |-> "NOREAD", ks |-> <<>>, lo |-> NIL, hi |-> NIL]
-                                 ELSE [tp |-> "POINTS", ks |-> <<<<>>>>, lo |-> NIL, hi |-> NIL])
-        ELSE [tp |-> "RANGE", ks |-> <<>>, lo |-> NIL, hi |-> e.a[2].s])
+  ELSE IF e.op \in {">", ">="} /\ IsKeyLit(e) THEN FromPin(e.a[2].s)
+  ELSE IF e.op \in {"<", "<="} /\ IsKeyLit(e) THEN UpToPin(e.a[2].s, e.op = "<=")
+  ELSE IF e.op \in {">", ">="} /\ IsLitKey(e) THEN UpToPin(e.a[1].s, e.op = ">=")     \* 'lit' > key
+  ELSE IF e.op \in {"<", "<="} /\ IsLitKey(e) THEN FromPin(e.a[1].s)
   ELSE IF e.op = "between" /\ e.a[1].k = "key" /\ e.a[2].k = "list" /\ Len(e.a[2].a) = 2 /\ AllStr(e.a[2].a)
        THEN [tp |-> "RANGE", ks |-> <<>>, lo |-> e.a[2].a[1].s, hi |-> e.a[2].a[2].s]
-  ELSE [tp |-> "NONE", ks |-> <<>>, lo |-> NIL, hi |-> NIL]
+  ELSE NoPin
 
 Pins(e) == SelectSeq([i \in 1..Len(Conjuncts(e)) |-> PinOf(Conjuncts(e)[i])], LAMBDA x : x.tp # "NONE")
 
